@@ -112,7 +112,13 @@ func (s *SolverProc) run(script string, valueExprs []string) SolveResult {
 	var sb strings.Builder
 	sb.WriteString("(push 1)\n")
 	sb.WriteString(script)
-	sb.WriteString("(check-sat)\n")
+	if s.kind == Z3 || s.kind == Z3New {
+		// z3's incremental core is very slow on these QF_ABV queries; the qfaufbv
+		// tactic (eager bit-blasting) is used instead and works inside push/pop
+		fmt.Fprintf(&sb, "(check-sat-using (try-for qfaufbv %d))\n", int(s.timeout/time.Millisecond))
+	} else {
+		sb.WriteString("(check-sat)\n")
+	}
 	fmt.Fprintf(&sb, "(echo \"MID-%d\")\n", s.seq)
 	type res struct {
 		lines []string
